@@ -957,6 +957,42 @@ pub fn gen_c15_stale_wbuf(out: &mut Out, rng: &mut Rng, thorough: bool) {
     }
 }
 
+/// the disconnect after a call that ended in each possible way (end of stream on and off a frame
+/// boundary, read / write / flush faults of every kind, exception, mismatch, junk, success)
+pub fn gen_c15_after_outcome(out: &mut Out, rng: &mut Rng, thorough: bool) {
+    let shut = ["", "s=o", "s=xnc", "s=xbp", "s=xk1", "s=xto", "s=p,o", "s=xid"];
+    let kinds = ["xnc", "xbp", "xid", "xii", "xue", "xto", "xwz", "xot", "xk1", "xk4"];
+    for i in 0..(if thorough { 4000 } else { 500 }) {
+        let kind = if i % 2 == 0 { "tcp" } else { "rtu" };
+        let unit = rng.u8();
+        let good = frame(kind, 0, unit, &[0x03, 0x02, 0x12, 0x34]);
+        let k = *rng.pick(&kinds);
+        let cut = rng.range(1, good.len());
+        let first = match i / 2 % 12 {
+            0 => "r=e".to_string(),
+            1 => "r=p,e".to_string(),
+            2 => format!("r=d{},e", hex_raw(&good[..cut])),
+            3 => format!("r={k}"),
+            4 => format!("r=d{},{k}", hex_raw(&good[..cut])),
+            5 => format!("w={k}"),
+            6 => format!("w=a{},{k}", rng.range(1, 6)),
+            7 => "w=z".to_string(),
+            8 => format!("f={k}"),
+            9 => format!("r=d{}", hex_raw(&frame(kind, 0, unit, &[0x83, 0x02]))),
+            10 => format!("r=d{}", hex_raw(&frame(kind, 7, unit.wrapping_add(1), &[0x03, 0x02, 0x12, 0x34]))),
+            _ => format!("r=d{}", hex_raw(&good)),
+        };
+        let ncalls = rng.range(1, 3);
+        let mut line = format!("cli {kind} {}", hex8(unit));
+        for _ in 0..ncalls {
+            line.push_str(&format!(" | call RHR:0001:0001 {first}"));
+        }
+        let so = rng.pick(&shut);
+        line.push_str(&format!(" | disc {so} | call RHR:0001:0001 | disc | typed rhr:0001:0001"));
+        monitor_line(out, line.trim_end());
+    }
+}
+
 pub fn mon_c15(out: &mut Out, l: &str, r: &str) {
     let (head, ops) = ops_of(l);
     if head[0] != "cli" {
@@ -988,7 +1024,8 @@ pub fn mon_c15(out: &mut Out, l: &str, r: &str) {
                 }
             }
             "call" | "typed" => {
-                if disconnected {
+                // (a call that is dropped before its first poll – budget 0 – has not run at all)
+                if disconnected && field("b", &o.fields) != "0" {
                     out.check(got == "tr:nc" && written(rp).is_empty() && sd == 0, || format!("call after disconnect: expected NotConnected and no write, got `{rp}`"), l);
                 }
             }
